@@ -2,6 +2,7 @@
 //! Case lines and output format: see ocaml/run_zone.ml.
 use quandary::class::Class;
 use quandary::db::zone::{
+    ValidationIssue,
     GluePolicy, IteratedRrset, LookupAddrsResult, LookupAllResult, LookupOptions, LookupResult,
     SingleRrset,
 };
@@ -22,6 +23,19 @@ fn parse_name(s: &str) -> Box<Name> {
     }
     wire.push(0);
     Name::try_from_uncompressed_all(&wire).expect("generator produced an invalid name")
+}
+
+fn show_lower(n: &Name) -> String {
+    let labels: Vec<String> = n
+        .labels()
+        .filter(|l| !l.is_null())
+        .map(|l| hex(&l.octets().to_ascii_lowercase()))
+        .collect();
+    if labels.is_empty() {
+        "~@".to_string()
+    } else {
+        format!("~{}", labels.join("."))
+    }
 }
 
 fn show_name(n: &Name) -> String {
@@ -199,6 +213,42 @@ fn main() {
                 }
             }
             out.join(" / ")
+        }
+        "V" => {
+            let apex = parse_name(f[1]);
+            let class = Class::from(f[2].parse::<u16>().unwrap());
+            let policy = if f[3] == "1" { GluePolicy::Wide } else { GluePolicy::Narrow };
+            let recs = parse_records(f[4]);
+            let mut z = HashMapTreeZone::new(apex, class, policy);
+            for r in &recs {
+                let rd: &Rdata = (&r.rdata[..]).try_into().unwrap();
+                let _ = z.add(&r.owner, r.ty, r.class, r.ttl, rd);
+            }
+            match z.validate() {
+                Err(e) => format!("err {e:?}"),
+                Ok(issues) => {
+                    let mut l: Vec<String> = issues
+                        .iter()
+                        .map(|i| {
+                            let s = match i {
+                                ValidationIssue::MissingApexSoa => "MissingApexSoa".to_string(),
+                                ValidationIssue::TooManyApexSoas => "TooManyApexSoas".to_string(),
+                                ValidationIssue::MissingApexNs => "MissingApexNs".to_string(),
+                                ValidationIssue::MissingNsAddress(n) => format!("MissingNsAddress({})", show_lower(n)),
+                                ValidationIssue::MissingMxAddress(n) => format!("MissingMxAddress({})", show_lower(n)),
+                                ValidationIssue::MissingGlue(n) => format!("MissingGlue({})", show_lower(n)),
+                                ValidationIssue::DuplicateCname(n) => format!("DuplicateCname({})", show_lower(n)),
+                                ValidationIssue::OtherRecordsAtCname(n) => format!("OtherRecordsAtCname({})", show_lower(n)),
+                                ValidationIssue::NsAtWildcard(n) => format!("NsAtWildcard({})", show_lower(n)),
+                            };
+                            format!("{}{}", s, if i.is_error() { "!e" } else { "!w" })
+                        })
+                        .collect();
+                    l.sort();
+                    l.dedup();
+                    if l.is_empty() { "ok -".to_string() } else { format!("ok {}", l.join(",")) }
+                }
+            }
         }
         _ => panic!("unknown op"),
     });
